@@ -40,14 +40,14 @@ macro_rules! divrem {
 
 /// 8-bit dividend against the native quotient/remainder; every operator form.
 macro_rules! h_div8 {
-    ($name:ident, $unw:literal, $maxlen:literal, $kind:tt, $b:expr) => {
+    ($name:ident, $unw:literal, $maxlen:literal, $form:literal, $kind:tt, $b:expr) => {
         harness_cfs!($name, $unw, {
             let (a, ra) = f8x1(anylen($maxlen));
             let (b, rb) = $b;
             nd::assume(!rb.v.is_zero());
             let n = ra.len;
             let av = ra.v.lo as u8;
-            w!(rb.len > 8 && rb.v.lo < 256 && rb.v.hi == 0 && rb.v.lo <= av as u128, "divisor longer than the dividend's capacity but small in value");
+            w!(rb.cap <= 8 || (rb.len > 8 && rb.v.lo < 256 && rb.v.hi == 0 && rb.v.lo <= av as u128), "divisor longer than the dividend's capacity but small in value (when the divisor type allows it)");
             w!(rb.v.lo > av as u128 || rb.v.hi != 0, "divisor greater than the dividend");
             w!(n > 1 && rb.v.lo == 1 && rb.v.hi == 0, "division by one");
             let (wq, wr) = if rb.v.hi != 0 || rb.v.lo > 255 {
@@ -55,7 +55,7 @@ macro_rules! h_div8 {
             } else {
                 (av / (rb.v.lo as u8), av % (rb.v.lo as u8))
             };
-            let form = nd::upto(2);
+            let form: usize = $form;
             let (q, r) = if form == 0 {
                 divrem!($kind, a, b)
             } else if form == 1 {
@@ -77,20 +77,21 @@ macro_rules! h_div8 {
 }
 
 // quick: dividends up to 4 bits (unwind = 4 + 2); thorough: all 8-bit dividends
-h_div8!(c02_t_div8_l3_f8x1, 5, 3, (Bvf<u8, 1>), f8x1(anylen(8)));
-h_div8!(c02_t_div8_l3_f8x2, 5, 3, (Bvf<u8, 2>), f8x2(anylen(16)));
-h_div8!(c02_t_div8_l3_u64, 9, 3, int, iu64());
-h_div8!(c02_t_div8_f8x1, 10, 8, (Bvf<u8, 1>), f8x1(anylen(8)));
-h_div8!(c02_t_div8_f8x2, 10, 8, (Bvf<u8, 2>), f8x2(anylen(16)));
-h_div8!(c02_t_div8_f16x1, 10, 8, (Bvf<u16, 1>), f16x1(anylen(16)));
-h_div8!(c02_t_div8_bvd1, 10, 8, (Bvd), bvd1(anylen(64)));
-h_div8!(c02_t_div8_bvfix, 10, 8, (Bv), bvfix(anylen(128)));
-h_div8!(c02_t_div8_u8, 10, 8, int, iu8());
-h_div8!(c02_t_div8_u16, 10, 8, int, iu16());
-h_div8!(c02_t_div8_u32, 10, 8, int, iu32());
-h_div8!(c02_t_div8_u64, 10, 8, int, iu64());
-h_div8!(c02_t_div8_u128, 10, 8, int, iu128());
-h_div8!(c02_t_div8_usize, 10, 8, int, iusize());
+h_div8!(c02_t_div8_l3_f8x1, 5, 3, 0, (Bvf<u8, 1>), f8x1(anylen(8)));
+h_div8!(c02_t_div8_l3_f8x2, 5, 3, 0, (Bvf<u8, 2>), f8x2(anylen(16)));
+h_div8!(c02_t_div8_l3_u64, 9, 3, 1, int, iu64());
+h_div8!(c02_t_div8_f8x1, 10, 8, 0, (Bvf<u8, 1>), f8x1(anylen(8)));
+h_div8!(c02_t_div8_f8x1_ops, 10, 8, 1, (Bvf<u8, 1>), f8x1(anylen(8)));
+h_div8!(c02_t_div8_f8x1_assign, 10, 8, 2, (Bvf<u8, 1>), f8x1(anylen(8)));
+h_div8!(c02_t_div8_f8x2, 10, 8, 0, (Bvf<u8, 2>), f8x2(anylen(16)));
+h_div8!(c02_t_div8_f16x1, 10, 8, 0, (Bvf<u16, 1>), f16x1(anylen(16)));
+h_div8!(c02_t_div8_bvfix, 10, 8, 0, (Bv), bvfix(anylen(128)));
+h_div8!(c02_t_div8_u8, 10, 8, 1, int, iu8());
+h_div8!(c02_t_div8_u16, 10, 8, 1, int, iu16());
+h_div8!(c02_t_div8_u32, 10, 8, 1, int, iu32());
+h_div8!(c02_t_div8_u64, 10, 8, 1, int, iu64());
+h_div8!(c02_t_div8_u128, 10, 8, 1, int, iu128());
+h_div8!(c02_t_div8_usize, 10, 8, 1, int, iusize());
 
 /// Wider dividends with the quotient bounded below 16 (sig(a) - sig(b) <= 3).
 macro_rules! h_divq {
@@ -101,7 +102,7 @@ macro_rules! h_divq {
             nd::assume(!rb.v.is_zero());
             let n = ra.len;
             nd::assume(ra.v.sig() <= rb.v.sig() + 3);
-            w!(rb.len > n && rb.v.sig() <= ra.v.sig(), "divisor longer than the dividend, quotient non-zero");
+            w!(rb.cap <= n || (rb.len > n && rb.v.sig() <= ra.v.sig()), "divisor longer than the dividend, quotient non-zero (when the divisor type allows it)");
             w!(ra.v.sig() == rb.v.sig() + 3, "four quotient bits");
             w!(ra.v.sig() > 8 && rb.v.sig() > 8, "dividend and divisor span more than one byte");
             let (q, r) = divrem!($kind, a, b);
@@ -121,8 +122,6 @@ h_divq!(c02_t_divq_f8x2_f8x3, 6, (Bvf<u8, 3>), f8x2(anylen(16)), f8x3(anylen(24)
 h_divq!(c02_t_divq_f8x2_f16x2, 6, (Bvf<u16, 2>), f8x2(anylen(16)), f16x2(anylen(32)));
 h_divq!(c02_t_divq_f8x2_u32, 6, int, f8x2(anylen(16)), iu32());
 h_divq!(c02_t_divq_f16x2_f8x3, 6, (Bvf<u8, 3>), f16x2(anylen(32)), f8x3(anylen(24)));
-h_divq!(c02_t_divq_f64x2_f64x2, 6, (Bvf<u64, 2>), f64x2(anylen(128)), f64x2(anylen(128)));
-h_divq!(c02_t_divq_f64x2_f64x3, 6, (Bvf<u64, 3>), f64x2(anylen(128)), f64x3(anylen(192)));
 
 /// Same oracle with the quotient bounded below 4 (cheaper: quick tier).
 macro_rules! h_divq2 {
@@ -133,7 +132,7 @@ macro_rules! h_divq2 {
             nd::assume(!rb.v.is_zero());
             let n = ra.len;
             nd::assume(ra.v.sig() <= rb.v.sig() + 1);
-            w!(rb.len > n && rb.v.sig() <= ra.v.sig(), "divisor longer than the dividend, quotient non-zero");
+            w!(rb.cap <= n || (rb.len > n && rb.v.sig() <= ra.v.sig()), "divisor longer than the dividend, quotient non-zero (when the divisor type allows it)");
             w!(ra.v.sig() == rb.v.sig() + 1, "two quotient bits");
             w!(ra.v.sig() < rb.v.sig(), "divisor has more significant bits: quotient zero");
             let (q, r) = divrem!($kind, a, b);
@@ -159,10 +158,9 @@ h_divq2!(c02_q_divq2_f64x2_l70_f64x3_l130, 4, (Bvf<u64, 3>), f64x2(70), f64x3(13
 h_divq2!(c02_q_divq2_bvfix_l20_bvfix_l128, 4, (Bv), bvfix(20), bvfix(128));
 h_divq2!(c02_q_divq2_bvd2_l65_f64x3_l130, 4, (Bvf<u64, 3>), bvd2(65), f64x3(130));
 h_divq2!(c02_t_divq2_bvfix_l100_bvfix_l128, 4, (Bv), bvfix(100), bvfix(128));
-h_divq2!(c02_t_divq2_bvdyn2_l128_bvfix_l64, 4, (Bv), bvdyn2(128), bvfix(64));
+h_divq2!(c02_t_divq2_bvdyn2_l128_bvfix_l64, 6, (Bv), bvdyn2(128), bvfix(64));
 h_divq2!(c02_t_divq2_bvd2_l128_u64, 4, int, bvd2(128), iu64());
 h_divq!(c02_t_divq_bvd2_l128_bvd2_l128, 6, (Bvd), bvd2(128), bvd2(128));
-h_divq!(c02_t_divq_bvfix_l128_bvdyn2_l100, 6, (Bv), bvfix(128), bvdyn2(100));
 
 // ---- zero divisor: every form must panic, for every dividend ---------------------------------
 // The zero check is the first statement of div_rem, but CBMC still encodes the (dead) division
@@ -190,15 +188,11 @@ h_divzero!(c02_q_divzero_div_f8x1_empty, 4, vec, f8x1(anylen(3)), f16x1(0), |a, 
 h_divzero!(c02_t_divzero_div_f8x1_u8, 9, int, f8x1(anylen(3)), iu8(), |a, b| { let _ = a / b; });
 h_divzero!(c02_q_divzero_rem_f8x1_u128, 4, int, f8x1(anylen(3)), iu128(), |a, b| { let _ = &a % &b; });
 h_divzero!(c02_q_divzero_divassign_f8x1_u32, 5, int, f8x1(anylen(3)), iu32(), |a, b| { let mut x = a; x /= b; });
-h_divzero!(c02_t_divzero_div_f8x1_bvd1, 4, vec, f8x1(anylen(3)), bvd1(anylen(64)), |a, b| { let _ = &a / &b; });
 h_divzero!(c02_q_divzero_rem_f8x1_bvfix, 4, vec, f8x1(anylen(3)), bvfix(anylen(128)), |a, b| { let _ = &a % &b; });
 h_divzero!(c02_q_divzero_div_f64x2_l3_f64x2, 4, vec, f64x2(3), f64x2(anylen(128)), |a, b| { let _ = &a / &b; });
 h_divzero!(c02_q_divzero_divrem_bvd1_l3_bvd2, 4, vec, bvd1(3), bvd2(70), |a, b| { let _ = a.div_rem::<Bvd>(&b); });
 h_divzero!(c02_q_divzero_div_bvd1_l3_u64, 4, int, bvd1(3), iu64(), |a, b| { let _ = &a / &b; });
-h_divzero!(c02_t_divzero_remassign_bvd1_l3_f8x2, 9, vec, bvd1(3), f8x2(anylen(16)), |a, b| { let mut x = a; x %= &b; });
 h_divzero!(c02_q_divzero_div_bvd1_l3_empty, 4, vec, bvd1(3), bvd0(0), |a, b| { let _ = &a / &b; });
-h_divzero!(c02_t_divzero_divrem_bvfix_l3_bvfix, 4, vec, bvfix(3), bvfix(anylen(128)), |a, b| { let _ = a.div_rem::<Bv>(&b); });
-h_divzero!(c02_t_divzero_div_bvfix_l3_bvdyn1, 4, vec, bvfix(3), bvdyn1(40), |a, b| { let _ = &a / &b; });
-h_divzero!(c02_t_divzero_rem_bvdyn1_l3_bvfix, 4, vec, bvdyn1(3), bvfix(anylen(128)), |a, b| { let _ = &a % &b; });
 h_divzero!(c02_q_divzero_divassign_bvfix_l3_u16, 5, int, bvfix(3), iu16(), |a, b| { let mut x = a; x /= b; });
 h_divzero!(c02_q_divzero_remassign_bvdyn1_l3_u8, 9, int, bvdyn1(3), iu8(), |a, b| { let mut x = a; x %= &b; });
+
